@@ -26,7 +26,8 @@ RULE = ('complete tables; (a) case = (argument list, quoting style per argument,
 ASSUMPTIONS = ['(a) arguments of 1..3 characters over {a, space, tab, \', ", \\, e-acute}; lists of 1, 2 and (sub-pool) 3 arguments',
                '(b)/(c) run as the current user (root: X_OK needs an x bit); (c) uses real processes and real time as a liveness bound only']
 REQUIRED_FLAGS = {'has_special': 1, 'lead_or_trail': 1, 'shadowed': 1, 'probe_answered': 1, 'program_word_alone': 1,
-                  'bare_name_env_without_path': 1, 'second_launch_differs_from_first': 1, 'preexec_fn_with_ignore_sighup': 1}
+                  'bare_name_env_without_path': 1, 'second_launch_differs_from_first': 1, 'preexec_fn_with_ignore_sighup': 1,
+                  'answer_changes_between_lookups': 1}
 ALPHA = ['a', ' ', '\t', "'", '"', '\\', '\xe9']
 
 
@@ -64,6 +65,8 @@ def tasks(tier):
             t.append(dict(kind='split3', part=i, parts=16))
     for envform in ('given', 'environ', 'nopath', 'emptypath', 'emptycomponent'):
         t.append(dict(kind='which', envform=envform))
+    for i in range(4):
+        t.append(dict(kind='which-history', part=i, parts=4))
     for i in range(8):
         t.append(dict(kind='child', part=i, parts=8, quick=q))
     # launches that depend on each other or on the program word itself: a quoted program path given as a bare
@@ -254,6 +257,67 @@ def run_which(task, acc):
             os.environ.pop('PATH', None)
         else:
             os.environ['PATH'] = saved_path
+        shutil.rmtree(base, ignore_errors=True)
+
+
+def run_which_history(task, acc):
+    """The same name looked up again and again with the SAME PATH string while the directories' contents change
+    in between (a program installed into an earlier directory, a chmod, a shadowing directory replaced by a
+    program): every lookup answers for the file system as it is now.  All ordered pairs of two-directory layouts."""
+    from pexpect.utils import which
+    base = tempfile.mkdtemp(prefix='c13h', dir='/verif/.scratch')
+    try:
+        store = os.path.join(base, 'store')
+        os.mkdir(store)
+        open(os.path.join(store, 'real_exec'), 'w').write('#!/bin/sh\n')
+        os.chmod(os.path.join(store, 'real_exec'), 0o755)
+        open(os.path.join(store, 'real_nonexec'), 'w').write('x')
+        os.chmod(os.path.join(store, 'real_nonexec'), 0o644)
+        name = 'vfcmd'
+        dirs = [os.path.join(base, 'd0'), os.path.join(base, 'd1')]
+        for d in dirs:
+            os.mkdir(d)
+        env = {'PATH': os.pathsep.join(dirs), 'X': '1'}
+
+        def set_layout(layout):
+            for d, k in zip(dirs, layout):
+                p = os.path.join(d, name)
+                if os.path.islink(p) or os.path.isfile(p):
+                    os.remove(p)
+                elif os.path.isdir(p):
+                    os.rmdir(p)
+                make_entry(d, name, k, store)
+
+        def want_for(layout):
+            first = next((i for i, k in enumerate(layout) if k in GOOD), None)
+            return os.path.join(dirs[first], name) if first is not None else None
+        layouts = list(itertools.product(KINDS, repeat=2))
+        n = 0
+        for i, l1 in enumerate(layouts):
+            if i % task['parts'] != task['part']:
+                continue
+            for l2 in layouts:
+                n += 1
+                got = []
+                for lay in (l1, l2):
+                    set_layout(lay)
+                    try:
+                        got.append(which(name, env=env))
+                    except Exception as e:
+                        got.append('raised %r' % e)
+                want = [want_for(l1), want_for(l2)]
+                acc.execs += 1
+                acc.transitions += 2
+                if want[0] != want[1]:
+                    acc.nontrivial += 1
+                    acc.flags['answer_changes_between_lookups'] += 1
+                acc.outcomes['which-history:%s' % ('ok' if got == want else 'bad')] += 1
+                if got != want:
+                    key = 'which-history:%s' % ('second' if got[0] == want[0] else 'first')
+                    acc.violation(key, 'PATH unchanged, layout %r then %r: which() answered %r, expected %r' % (l1, l2, got, want),
+                                  dict(task=task, case=key, l1=list(l1), l2=list(l2)))
+        acc.states += n
+    finally:
         shutil.rmtree(base, ignore_errors=True)
 
 
@@ -574,6 +638,8 @@ def run_task(task):
         return acc
     if task['kind'].startswith('split'):
         run_split(task, acc)
+    elif task['kind'] == 'which-history':
+        run_which_history(task, acc)
     elif task['kind'] == 'which':
         run_which(task, acc)
     else:
